@@ -938,6 +938,11 @@ class World(object):
             ctx["result"] = g
             return [ok, dump(g)]
         if k == "pen":
+            if is_shallow(g):
+                # identifiers of shallow-loaded contours are not registered (FIXME in GlyphObjectLoadingPointPen): a pen
+                # drawing into such a glyph can take one of them; later deepening then asserts.  C10's concern; the
+                # oracle does not judge identifier handling / rejections on this glyph any more
+                self.tainted.add(ctx["key"])
             p = g.getPointPen()
             p.skipConflictingIdentifiers = bool(op[3])
             ctx["before"] = stream(g)
@@ -1231,7 +1236,7 @@ def oracle_step(w, ctx, step):
                     return viol
                 part = [comps[i]]
         if err:
-            if valid:
+            if valid and not ctx.get("tainted"):
                 viol.append(V("pointpen-roundtrip-raises", ctx, error=err))
         else:
             res = ctx["result"]
@@ -1255,7 +1260,7 @@ def oracle_step(w, ctx, step):
         exps = [seg_expected(pts) for _, pts in contours]
         indomain = all(e is not None for e in exps)
         if err:
-            if indomain:
+            if indomain and not ctx.get("tainted"):
                 viol.append(V("segment-roundtrip-raises", ctx, error=err))
         elif indomain:
             res = ctx["result"]
@@ -1272,7 +1277,10 @@ def oracle_step(w, ctx, step):
     elif k in ("copy", "insert"):
         if err:
             # the source was built successfully, the destination is fresh: copying must not fail
-            viol.append(V("copy-raises", ctx, error=err))
+            # (unless an earlier pen call made the source's identifiers ambiguous, see `tainted`)
+            ids = used_identifiers(w.glyphs[ctx["key"]], stream(w.glyphs[ctx["key"]]))
+            if not ctx.get("tainted") or len(ids) == len(set(ids)):
+                viol.append(V("copy-raises", ctx, error=err))
         else:
             d = ctx["result"]
             src, dst = ctx["src_dump"], dump(d)
@@ -1476,12 +1484,25 @@ def oracle_independence(w):
                 set(map(id, list(d.anchors) + list(d.guidelines) + list(d.components) + [d.image, d.lib]))
             if shared or objs:
                 viol.append(V("independence-shared-object", ctx, shared=len(shared) + len(objs)))
-            d0 = full_dump(d)
-            mutate_all(s)
+            try:
+                d0 = full_dump(d)
+                s0 = full_dump(s)
+            except AssertionError:
+                # a glyph that cannot be deepened any more (an earlier pen call registered an identifier that one
+                # of its own shallow-loaded contours carries: C10's concern) cannot be dumped through its objects
+                w.count("independence.not-dumpable")
+                continue
+            try:
+                mutate_all(s)
+            except AssertionError:
+                w.count("independence.mutation-rejected")
             if full_dump(d) != d0:
                 viol.append(V("independence-source-mutation-reaches-copy", ctx, before=d0, after=full_dump(d)))
             s1 = full_dump(s)
-            mutate_all(d)
+            try:
+                mutate_all(d)
+            except AssertionError:
+                w.count("independence.mutation-rejected")
             if full_dump(s) != s1:
                 viol.append(V("independence-copy-mutation-reaches-source", ctx, before=s1, after=full_dump(s)))
             w.count("independence.checked")
